@@ -112,6 +112,9 @@ def _format_binary_recurse(something) -> bytes:
             something = something.encode("utf8")
         return b's' + struct.pack('!i', len(something)) + something
     elif isinstance(something, datetime.datetime):
+        # Naive datetimes are UTC in LLSD (as in the XML and notation forms), not local time
+        if something.tzinfo is None:
+            something = something.replace(tzinfo=datetime.timezone.utc)
         return b'd' + struct.pack('<d', something.timestamp())
     elif isinstance(something, datetime.date):
         seconds_since_epoch = calendar.timegm(something.timetuple())
